@@ -204,14 +204,6 @@ example : distinguishItems 5 [(b 1, p, b 2), (b 2, p, b 3)] [b 1, b 2, b 3] (b 1
 
 /-! ## Skolemisation -/
 
-/-- renaming of blank-node labels on string-labelled graphs -/
-def STerm.rename (σ : Str → Str) : STerm → STerm
-  | .bnode l => .bnode (σ l)
-  | t => t
-
-def SGraph.rename (σ : Str → Str) (g : SGraph) : SGraph :=
-  g.map (fun t => (t.1.rename σ, t.2.1.rename σ, t.2.2.rename σ))
-
 def Spec.SIso (g h : SGraph) : Prop :=
   ∃ σ : Str → Str, (∀ a ∈ slabels g, ∀ b ∈ slabels g, σ a = σ b → a = b) ∧ SetEq (g.rename σ) h
 
@@ -229,6 +221,46 @@ def Statement_skolem_roundtrip_partial : Prop :=
 /-- the driver's concrete `urllib` satisfies the contract for labels without `/ ? # ;` -/
 def Statement_simpleUrl_contract : Prop :=
   ∀ l : Str, LabelChars l → LabelOk simpleUrl l
+
+/-- ONE consistent label map per call: the code, which consults and extends the module-level `skolems` dict term
+    by term (`deSkolemizeSt`), translates every term of the call by the single function its FINAL dict stands for.
+    The proof uses only that dict entries are added and never changed or dropped (`CacheExt`). -/
+def Statement_deskolemize_one_map : Prop :=
+  ∀ (U : UrlOps) (mint : Nat → Str) (st : SkState) (g : SGraph),
+    (deSkolemizeSt U mint st g).1 =
+      deSkolemize U ((deSkolemizeSt U mint st g).2.cache.fn (fun u => u)) g
+
+/-- the guarded round trip for the stateful code, whatever the dict held before the call -/
+def Statement_skolem_roundtrip_stateful_partial : Prop :=
+  ∀ (U : UrlOps) (mint : Nat → Str) (st : SkState) (g : SGraph), NoGenid U g → LabelsOk U g →
+    (deSkolemizeSt U mint st (skolemize U g)).1 = g
+
+/-- round trip through the EXTERNAL genid branch (`skolemize(authority=a, basepath="/.well-known/genid/")`): the blank
+    nodes come back under fresh labels, and the result is the input relabelled by an injective map (so the two
+    graphs are isomorphic) — given: fresh labels are distinct (`mint` injective), the dict holds only labels minted
+    so far, no genid IRI in the input, no blank predicate, and the urllib contract that the skolem IRIs are recognised
+    as external genids and are distinct for distinct labels. -/
+def Statement_skolem_roundtrip_external : Prop :=
+  ∀ (U : UrlOps) (mint : Nat → Str), Function.Injective mint → ∀ (auth base : Str) (g : SGraph) (st : SkState),
+    CacheFresh mint st → NoGenid U g → (∀ t ∈ g, t.2.1.labels = []) →
+    (∀ l ∈ slabels g, isRdflibSkolem U (skolemizeLabelAt U auth base l) = false ∧
+      isExternalSkolem U (skolemizeLabelAt U auth base l) = true) →
+    (∀ a ∈ slabels g, ∀ b ∈ slabels g,
+      skolemizeLabelAt U auth base a = skolemizeLabelAt U auth base b → a = b) →
+    Spec.SIso g (deSkolemizeSt U mint st (skolemizeAt U auth base g)).1
+
+theorem deskolemize_one_map : Statement_deskolemize_one_map :=
+  fun U mint st g => (deSkolemizeSt_spec U mint g st).2 _ _ (CacheExt.refl _)
+
+theorem skolem_roundtrip_stateful_partial : Statement_skolem_roundtrip_stateful_partial := by
+  intro U mint st g hn hl
+  rw [deskolemize_one_map]
+  exact deSk_sk_eq U _ g hn hl
+
+theorem skolem_roundtrip_external : Statement_skolem_roundtrip_external := by
+  intro U mint hm auth base g st hf hn hp hx hinj
+  obtain ⟨ρ, hρ, e⟩ := external_roundtrip U mint hm auth base g st hf hn hp hx hinj
+  exact ⟨ρ, hρ, by rw [e]; exact SetEq.refl _⟩
 
 theorem skolem_roundtrip_partial : Statement_skolem_roundtrip_partial := by
   intro U fresh g hn hl
@@ -275,9 +307,27 @@ theorem skolem_roundtrip_witness (fresh : Str → Str) : ¬ Statement_skolem_rou
       [(.bnode "b".toList, .iri "http://e/p".toList,
         .bnode (fresh exIri))] := by
     simp only [exGenid, deSkolemize, skolemize, List.map_cons, List.map_nil, h3]
-    simp [skTerm, deskTerm, h1, h2]
+    simp [skTerm, skTermAt, deskTerm, h1, h2]
   rw [hrt] at hmem
   simp [SGraph.rename, STerm.rename] at hmem
+
+/-- non-vacuity of the literal guard: a LITERAL whose lexical form is the skolem IRI of the graph's own blank node
+    is not a skolem IRI — `NoGenid` holds and the graph round-trips unchanged -/
+example : NoGenid simpleUrl
+    [(.bnode "b".toList, .iri "http://e/p".toList,
+      .lit "https://rdflib.github.io/.well-known/genid/rdflib/b".toList 0)] := by
+  intro t ht u hu
+  simp only [List.mem_singleton] at ht
+  subst ht
+  rcases hu with hu | hu <;> simp at hu
+
+/-- non-vacuity of the external round trip: two occurrences of one node get ONE fresh label -/
+example : (deSkolemizeSt simpleUrl (fun k => (toString k).toList) ⟨[], 0⟩
+    (skolemizeAt simpleUrl "http://example.org".toList skolemGenid
+      [(.bnode "x".toList, .iri "http://e/p".toList, .bnode "y".toList),
+       (.bnode "y".toList, .iri "http://e/p".toList, .bnode "x".toList)])).1 =
+    [(.bnode "0".toList, .iri "http://e/p".toList, .bnode "1".toList),
+     (.bnode "1".toList, .iri "http://e/p".toList, .bnode "0".toList)] := by decide
 
 example : NoGenid simpleUrl [(.bnode "b".toList, .iri "http://e/p".toList, .iri "http://e/x".toList)] := by
   intro t ht u hu
